@@ -274,9 +274,20 @@ func TestC08_Twins(t *testing.T) {
 				prefix = g.Paths[rapid.IntRange(0, len(g.Paths)-1).Draw(t, "pfx")].Parts
 			}
 			parts := append(append([]string(nil), prefix...), nm)
+			ops := []bx.Op{bx.OpEq, bx.OpNe, bx.OpIn, bx.OpEmpty, bx.OpNotEmpty, bx.OpMatches}
+			op := ops[rapid.IntRange(0, len(ops)-1).Draw(t, "hop")]
+			lit := []string{"", "a", "0", "1", "true", ".*"}[rapid.IntRange(0, 5).Draw(t, "hlit")]
 			if bx.Expressible(bx.Sel{Parts: parts}) && !bx.Keywords[parts[0]] {
-				ops := []bx.Op{bx.OpEq, bx.OpNe, bx.OpIn, bx.OpEmpty, bx.OpNotEmpty, bx.OpMatches}
-				e = &bx.Match{Sel: bx.Sel{Parts: parts}, Op: ops[rapid.IntRange(0, len(ops)-1).Draw(t, "hop")], Lit: []string{"", "a", "0", "1", "true", ".*"}[rapid.IntRange(0, 5).Draw(t, "hlit")]}
+				e = &bx.Match{Sel: bx.Sel{Parts: parts}, Op: op, Lit: lit}
+			}
+			// ... or through a quantifier's value alias: any <collection> as _, v { v.<field> .. }
+			if len(prefix) > 0 && bx.Expressible(bx.Sel{Parts: prefix}) && !bx.Keywords[prefix[0]] && rapid.Bool().Draw(t, "viaAlias") {
+				mode := []bx.BindMode{bx.BindValue, bx.BindBoth, bx.BindDefault}[rapid.IntRange(0, 2).Draw(t, "aliasMode")]
+				q := &bx.Quant{All: rapid.Bool().Draw(t, "aliasAll"), Sel: bx.Sel{Parts: prefix}, Mode: mode, Value: "v", Body: &bx.Match{Sel: bx.Sel{Parts: []string{"v", nm}}, Op: op, Lit: lit}}
+				if mode == bx.BindBoth {
+					q.Index = "k"
+				}
+				e = q
 			}
 		}
 		if e == nil {
